@@ -81,7 +81,7 @@ P["C06"] = {
     "bounds": "Tier A: n <= 3 rules, K <= 4 firings, MaxCycle a symbolic uint64 (budgets 0..K decided exactly, larger budgets are 'not reached'), 0-2 listeners",
     "outside": "runs longer than K firings (the engine loop is not cut inductively); listeners that panic",
     "runs": [tierA(2, 2, fListen | fErr | fFlag, Q), tierA(3, 2, 0, QT), tierA(2, 2, fRetract | fDeleted, Q), tierA(2, 2, fCancel | fListen, QT),
-             tierA(3, 3, fListen, T), tierA(2, 3, fErr | fFlag | fRetract, T), tierA(2, 4, 0, T), tierA(3, 2, fErr | fFlag | fRetract | fDeleted, T)]}
+             tierA(3, 3, fListen, T), tierA(2, 3, fErr | fFlag, T), tierA(2, 2, fErr | fFlag | fRetract, T), tierA(2, 4, 0, T), tierA(3, 2, fErr | fFlag | fDeleted, T)]}
 P["C10"] = {
     "design_ref": "DESIGN.md §8 C10, Appendix B", "assumptions": TIERA_ASSUME,
     "bounds": "Tier A: n <= 4 rules, K <= 3 firings, each action performs up to two effects from {nothing, Retract(known name), Retract(unknown name), Complete}",
@@ -97,7 +97,7 @@ P["C14"] = {
     "design_ref": "DESIGN.md §8 C14, Appendix B", "assumptions": TIERA_ASSUME,
     "bounds": "Tier A: n <= 3 rules, K <= 3 firings; every condition may return a bool, a non-bool, an error or panic; every action may return nil, an error or panic; flag enumerated",
     "outside": "failure kinds outside the template family; runs longer than K",
-    "runs": [tierA(2, 2, fErr | fFlag, QT), fetchA(3, fErr | fFlag, QT), tierA(3, 2, fErr | fFlag, T), tierA(2, 3, fErr | fFlag | fRetract, T), tierA(2, 2, fErr | fFlag | fListen | fDeleted, T)]}
+    "runs": [tierA(2, 2, fErr | fFlag, QT), fetchA(3, fErr | fFlag, QT), tierA(3, 2, fErr | fFlag, T), tierA(2, 3, fErr | fFlag, T), tierA(2, 2, fErr | fFlag | fRetract, T), tierA(2, 2, fErr | fFlag | fListen | fDeleted, T)]}
 P["C15"] = {
     "design_ref": "DESIGN.md §8 C15, Appendix B", "assumptions": TIERA_ASSUME + [
         "a cancellation landing in the engine's own straight-line code between two environment calls is indistinguishable from one landing in the adjacent call",
@@ -227,10 +227,10 @@ P["C12"]["bounds"] += "; behavioural equivalence: every rule of 13 templates eva
 P["C12"]["outside"] = "rule sets outside the template family; readers that return short reads without being at the end"
 P["C12"]["assumptions"] = TIERC_ASSUME + TIERB_ASSUME
 
-P["C10"]["runs"] += [tierB("control", 3, 0, QT, require_reach=["tierB:self-retract-fired", "tierB:complete-fired"]), tierB("control", 2, 1, T, require_reach=["tierB:self-retract-fired", "tierB:complete-fired"])]
+P["C10"]["runs"] += [tierB("control", 3, 0, QT, require_reach=["tierB:self-retract-fired", "tierB:complete-fired"]), tierB("controlp", 2, 1, T, require_reach=["tierB:self-retract-fired", "tierB:complete-fired"])]
 P["C10"]["assumptions"] = TIERA_ASSUME + TIERB_ASSUME
 P["C10"]["bounds"] += "; Tier B: Retract (self / other / unknown) and Complete in the middle of real action lists (template b_retract) reached through FunctionCall -> GoValueNode.CallFunction -> reflect MethodByName/Call"
-P["C14"]["runs"] += [tierB("control", 3, 0, QT), tierB("control", 2, 1, T),
+P["C14"]["runs"] += [tierB("control", 3, 0, QT), tierB("controlp", 2, 1, T),
                      tierB("failing", 2, 8, QT, require_reach=["tierB:execute-returned", "tierB:flag-set-and-a-condition-fails"])]
 P["C14"]["assumptions"] = TIERA_ASSUME + TIERB_ASSUME
 P["C14"]["bounds"] += "; Tier B: real failures chosen by the solver through the facts (index out of range, integer division by zero, panicking user method, nil pointer, kind mismatch, missing fact, missing map key, a failing parenthesised sub-expression, Complete() before a failing action; a failing sub-expression shared with a healthy rule); the same failing templates with ReturnErrOnFailedRuleEvaluation set (error names a rule whose memo-free evaluation fails, nothing fires)"
